@@ -7,7 +7,7 @@
 From Coq Require Import List NArith Bool.
 From Frugal Require Import Bytes Wire Skip Values Desc Spec Encode Decode Checks Tags State Bitset Alloc DescMap Conc LegacyDefs.
 From Frugal.gen Require Import Params.
-From Frugal.proofs Require Import GenOk BytesWire EncodeSpec SizeExact SkipPut DecodeSafe DecodeRefines RoundTrip Corollaries StateProofs BitsetProofs AllocProofs DescMapProofs ConcProofs BufferContract.
+From Frugal.proofs Require Import GenParams GenTables SizeExact.
 From Frugal.props Require Import Examples.
 Import ListNotations.
 
@@ -27,3 +27,8 @@ Proof.
   rewrite E. reflexivity.
 Qed.
 Print Assumptions C18_no_registration_work.
+
+(* the side conditions on the generated constants and tables that the theorems above assume hold
+   for what the translator read from the sources of this run *)
+Theorem C18_side_conditions : params_ok = true /\ tables_ok = true.
+Proof. split; [exact params_ok_holds | exact tables_ok_holds]. Qed.
